@@ -9,7 +9,7 @@ from __future__ import annotations
 
 import itertools
 
-OPSETS = [15, 17, 18, 21]
+OPSETS = [13, 15, 17, 18, 21]
 CHAINS = ["direct", "transitive", "in_branch", "in_loop"]
 SENSITIVE = ["reduce", "split", "none"]
 
